@@ -23,7 +23,8 @@ EXPLANATION = (
     "RUNNABLE insert covers the complement, root kinds are pairwise distinct integers with BLOCK_STEP the largest, "
     "every root kind is consumed by exactly one of the tables/buckets, PendingSummary's PendingOther fields equal the "
     "buckets formatted, and the universe predicate equals dispatch's. Does not decide that the attribution forest "
-    "reaches every non-cyclic step for every leftover graph."
+    "reaches every non-cyclic step for every leftover graph. "
+    'Also: the seed statement and the candidate arm of each root kind select the same (step, root) pairs, with the per-request unsatisfiability test for resources; R-C19-5 the invalid-target verdict is taken after the startup rescans.'
 )
 ASSUMPTIONS = ["the pending universe equals dispatch's universe (C10's rule R-C10-3)"]
 
